@@ -363,7 +363,7 @@ def h_net_sample(w, st, rec):
     fired0 = peer().fired
     log0 = len(peer().log)
     npre = digest(n)
-    seed = dec(rec.get("seed"))
+    seed = G.seed_object(w, rec.get("seed"))
     out = w.call(lambda: obj.sample(n, random_state=seed), arm=rec.get("arm"))
     alloc_calls = w.last_seam_calls.get("pd.DataFrame", 0)
     alloc_failed = rec.get("arm") is not None and out[0] == "exc" and isinstance(out[1], MemoryError)
@@ -432,6 +432,8 @@ def h_net_sample(w, st, rec):
                     w.probes["seeded_pair.seed0"] += 1
                 if G.seed_is_numpy(rec["seed"]):
                     w.probes["seeded_pair.numpy_integer_seed"] += 1
+                if G.seed_is_object(rec["seed"]):
+                    w.probes["seeded_pair.seed_sequence_object_reused"] += 1
                 if "rng.reseed" in f["between"]:
                     w.probes["seeded_pair.sep.global_reseed"] += 1
                 if peer().k >= 2 and len(net["sources"]) < net["p"]:
@@ -838,7 +840,7 @@ ASSUMPTIONS = [
 
 REQUIRED_PROBES = ["sources>=2.independence_checkable", "sources>=2.independence_checkable.seeded",
                    "non_source.parents>=2", "equal_sized_environments", "seed0",
-                   "seeded_pair.nontrivial", "seeded_pair.seed0", "seeded_pair.numpy_integer_seed", "seeded_pair.sep.global_reseed",
+                   "seeded_pair.nontrivial", "seeded_pair.seed0", "seeded_pair.numpy_integer_seed", "seeded_pair.seed_sequence_object_reused", "seeded_pair.sep.global_reseed",
                    "seeded_pair.k>=2.non_source", "peer.k>=2.non_source", "peer_fault.fit", "verbose",
                    "sample_after_scribble_input", "n:none", "n:int", "n:list", "sweep.peer_fault_positions", "sweep.alloc_fault_positions",
                    "peer_fault.predict.raised", "data.non_contiguous_views", "data.fortran_order", "data.dtype:<i8",
